@@ -93,7 +93,7 @@ def run_case(args):
 def run(tier, V):
     vi = build('asan')
     W = c17.Widths()
-    n = 6000 if tier == 'quick' else 80000
+    n = 6000 if tier == 'quick' else 50000
     base = common.seed() * 122949823 % (1 << 40)
     res = pmap(run_case, [(vi, base + i, W, tier) for i in range(n)], procs=True)
     moved = 0
